@@ -268,18 +268,31 @@ theorem gatherP_range_take (xs : List α) (p : Nat) : Prim.gatherP xs (List.rang
   rw [List.range_eq_range', gatherP_range']
   simp
 
+/-- the result of `partial_dagger` with `p` forward inputs and `p'` forward outputs: same
+    hypergraph, source interface = first `p` source positions followed by the target positions
+    from `p'` on, target interface = first `p'` target positions followed by the source positions
+    from `p` on -/
+def pdResult (c : OHG O A) (p p' : Nat) : OHG O A :=
+  ⟨⟨c.s.table.take p ++ c.t.table.drop p', c.h.w.length⟩,
+   ⟨c.t.table.take p' ++ c.s.table.drop p, c.h.w.length⟩, c.h⟩
+
+theorem pdResult_WF (c : OHG O A) (p p' : Nat) (hc : c.WF) : (pdResult c p p').WF := by
+  refine ⟨hc.hyper, ?_, ?_, rfl, rfl⟩
+  · intro x hx
+    rcases List.mem_append.1 hx with hx | hx
+    · exact hc.src_lt x (List.mem_of_mem_take hx)
+    · exact hc.tgt_lt x (List.mem_of_mem_drop hx)
+  · intro x hx
+    rcases List.mem_append.1 hx with hx | hx
+    · exact hc.tgt_lt x (List.mem_of_mem_take hx)
+    · exact hc.src_lt x (List.mem_of_mem_drop hx)
+
 /-- `partial_dagger c fa fb ra rb` on a well-formed `c` whose source interface has
-    `|fa| + |rb|` positions and whose target interface has `|fb| + |ra|` positions: same
-    hypergraph, source interface = first `|fa|` source positions followed by the last `|ra|`
-    target positions, target interface = first `|fb|` target positions followed by the last
-    `|rb|` source positions -/
+    `|fa| + |rb|` positions and whose target interface has `|fb| + |ra|` positions -/
 theorem partialDagger_eq (c : OHG O A) (fa fb ra rb : IC (List O)) (hc : c.WF)
     (hs : c.s.table.length = fa.values.length + rb.values.length)
     (ht : c.t.table.length = fb.values.length + ra.values.length) :
-    SOptic.partialDagger c fa fb ra rb =
-      .ok ⟨⟨c.s.table.take fa.values.length ++ c.t.table.drop fb.values.length, c.h.w.length⟩,
-           ⟨c.t.table.take fb.values.length ++ c.s.table.drop fa.values.length, c.h.w.length⟩,
-           c.h⟩ := by
+    SOptic.partialDagger c fa fb ra rb = .ok (pdResult c fa.values.length fb.values.length) := by
   have wi0 := (C06.inj0_spec fa.values.length rb.values.length).2.2.2
   have wi1 := (C06.inj1_spec fb.values.length ra.values.length).2.2.2
   have wj0 := (C06.inj0_spec fb.values.length ra.values.length).2.2.2
@@ -288,20 +301,11 @@ theorem partialDagger_eq (c : OHG O A) (fa fb ra rb : IC (List O)) (hc : c.WF)
       c.t.table.drop fb.values.length := List.take_of_length_le (by simp; omega)
   have e2 : (c.s.table.drop fa.values.length).take rb.values.length =
       c.s.table.drop fa.values.length := List.take_of_length_le (by simp; omega)
-  have hsW : (⟨c.s.table.take fa.values.length ++ c.t.table.drop fb.values.length,
-      c.h.w.length⟩ : FinFun).WF := by
-    intro x hx
-    rcases List.mem_append.1 hx with hx | hx
-    · exact hc.src_lt x (List.mem_of_mem_take hx)
-    · exact hc.tgt_lt x (List.mem_of_mem_drop hx)
-  have htW : (⟨c.t.table.take fb.values.length ++ c.s.table.drop fa.values.length,
-      c.h.w.length⟩ : FinFun).WF := by
-    intro x hx
-    rcases List.mem_append.1 hx with hx | hx
-    · exact hc.tgt_lt x (List.mem_of_mem_take hx)
-    · exact hc.src_lt x (List.mem_of_mem_drop hx)
-  have hnew := (C05.ohg_new_wf_iff _ _ c.h hsW htW hc.hyper.src hc.hyper.tgt).2
-    ⟨hc.hyper, hsW, htW, rfl, rfl⟩
+  have hW := pdResult_WF c fa.values.length fb.values.length hc
+  have hnew : OHG.new
+      ⟨c.s.table.take fa.values.length ++ c.t.table.drop fb.values.length, c.h.w.length⟩
+      ⟨c.t.table.take fb.values.length ++ c.s.table.drop fa.values.length, c.h.w.length⟩ c.h = _ :=
+    (C05.ohg_new_wf_iff _ _ c.h hW.src_wf hW.tgt_wf hc.hyper.src hc.hyper.tgt).2 hW
   unfold SOptic.partialDagger
   rw [FinFun.inj0_eq, FinFun.inj1_eq, FinFun.inj0_eq, FinFun.inj1_eq]
   simp only [Res.ok_bind]
@@ -353,16 +357,21 @@ theorem HasType.dagger {f : OHG O A} {X Y : List O} (h : HasType f X Y) : HasTyp
   exact ⟨hd, e1.trans ht, e2.trans hs⟩
 
 theorem identity_hasType (w : List O) :
-    ∃ r : OHG O A, OHG.identity w = .ok r ∧ HasType r w w := by
+    ∃ r : OHG O A, OHG.identity w = .ok r ∧ HasType r w w ∧ r.h.x = [] := by
   obtain ⟨r, hr, hw, hs, ht, _⟩ := C05.identity_wf_type (A := A) w
-  exact ⟨r, hr, hw, hs, ht⟩
+  refine ⟨r, hr, ⟨hw, hs, ht⟩, ?_⟩
+  rw [OHG.identity_eq] at hr
+  cases hr
+  rfl
 
 theorem tensor_hasType {f g : OHG O A} {X Y X' Y' : List O} (hf : HasType f X Y)
-    (hg : HasType g X' Y') : ∃ r, OHG.tensor f g = .ok r ∧ HasType r (X ++ X') (Y ++ Y') := by
-  obtain ⟨r, a, a', b, b', hr, hw, s1, s2, s3, t1, t2, t3, _⟩ := C05.tensor_wf_type f g hf.1 hg.1
+    (hg : HasType g X' Y') :
+    ∃ r, OHG.tensor f g = .ok r ∧ HasType r (X ++ X') (Y ++ Y') ∧ r.h.x = f.h.x ++ g.h.x := by
+  obtain ⟨r, a, a', b, b', hr, hw, s1, s2, s3, t1, t2, t3, _, hx, _⟩ :=
+    C05.tensor_wf_type f g hf.1 hg.1
   rw [hf.2.1] at s1; rw [hg.2.1] at s2; rw [hf.2.2] at t1; rw [hg.2.2] at t2
   cases s1; cases s2; cases t1; cases t2
-  exact ⟨r, hr, hw, s3, t3⟩
+  exact ⟨r, hr, ⟨hw, s3, t3⟩, hx⟩
 
 theorem compose_hasType [DecidableEq O] (B : Backend) (hB : B.Lawful) {f g : OHG O A}
     {X Y Z : List O} (hf : HasType f X Y) (hg : HasType g Y Z) :
@@ -393,19 +402,10 @@ theorem partialDagger_typed (c : OHG O A) (fa fb ra rb : IC (List O)) (X Y Z W :
   have lt : c.t.table.length = fb.values.length + ra.values.length := by
     rw [← Prim.gatherP_length c.h.w c.t.table hw.tgt_lt, ht, List.length_append, hZ, hW]
   have heq := partialDagger_eq c fa fb ra rb hw ls lt
-  have hsW : (⟨c.s.table.take fa.values.length ++ c.t.table.drop fb.values.length,
-      c.h.w.length⟩ : FinFun).WF := by
-    intro x hx
-    rcases List.mem_append.1 hx with hx | hx
-    · exact hw.src_lt x (List.mem_of_mem_take hx)
-    · exact hw.tgt_lt x (List.mem_of_mem_drop hx)
-  have htW : (⟨c.t.table.take fb.values.length ++ c.s.table.drop fa.values.length,
-      c.h.w.length⟩ : FinFun).WF := by
-    intro x hx
-    rcases List.mem_append.1 hx with hx | hx
-    · exact hw.tgt_lt x (List.mem_of_mem_take hx)
-    · exact hw.src_lt x (List.mem_of_mem_drop hx)
-  refine ⟨_, heq, ⟨⟨hw.hyper, hsW, htW, rfl, rfl⟩, ?_, ?_⟩, rfl, rfl, rfl⟩
+  have hW := pdResult_WF c fa.values.length fb.values.length hw
+  have hsW := hW.src_wf
+  have htW := hW.tgt_wf
+  refine ⟨_, heq, ⟨hW, ?_, ?_⟩, rfl, rfl, rfl⟩
   · rw [OHG.source_eq _ hsW rfl]
     show Res.ok (Prim.gatherP c.h.w (c.s.table.take fa.values.length ++
       c.t.table.drop fb.values.length)) = _
